@@ -1,5 +1,6 @@
 import EaselModel.Simd.Lemmas
 import EaselModel.Simd.LogExpLemmas
+import EaselModel.Simd.RealLanes
 import EaselModel.Vec.Real
 import EaselModel.Vec.XReal
 /-! # C20 — vector and SIMD numeric kernels compute their definition for every input
@@ -54,6 +55,13 @@ theorem sse_hmax_ps (hc : ∀ x y, O.max x y = O.max y x) (ha : ∀ x y z, O.max
 theorem sse_hmin_ps (hc : ∀ x y, O.min x y = O.min y x) (ha : ∀ x y z, O.min (O.min x y) z = O.min x (O.min y z)) (a : Vector α 4) :
     esl_sse_hmin_ps O a = foldLanes O.min O.zero a := Simd.sse_hmin_ps O hc ha a
 end
+
+/-- lanes read as reals (exact `+`, NaN-free order): the horizontal sum is the sum of the lanes, hmax/hmin the max/min -/
+theorem sse_hsum_ps_real (a : Vector ℝ 4) : esl_sse_hsum_ps realOps a = (List.ofFn fun i : Fin 4 => a[i]).sum := Simd.sse_hsum_ps_real a
+theorem avx_hsum_ps_real (a : Vector ℝ 8) : esl_avx_hsum_ps realOps a = (List.ofFn fun i : Fin 8 => a[i]).sum := Simd.avx_hsum_ps_real a
+theorem avx512_hsum_ps_real (a : Vector ℝ 16) : esl_avx512_hsum_ps realOps a = (List.ofFn fun i : Fin 16 => a[i]).sum := Simd.avx512_hsum_ps_real a
+theorem sse_hmax_ps_real (a : Vector ℝ 4) : esl_sse_hmax_ps realOps a = max (max (max a[0] a[1]) a[2]) a[3] := Simd.sse_hmax_ps_real a
+theorem sse_hmin_ps_real (a : Vector ℝ 4) : esl_sse_hmin_ps realOps a = min (min (min a[0] a[1]) a[2]) a[3] := Simd.sse_hmin_ps_real a
 
 /-- non-vacuity of the AC hypotheses: integers with `+`, `max`, `min` -/
 def intOps : F32Ops Int := { add := (· + ·), max := max, min := min, gt := fun a b => decide (a > b), zero := 0, ones := -1, msb := fun a => decide (a < 0) }
